@@ -71,6 +71,18 @@ CHECKS = {
             "protocol number/name x platform x switches, and every name in an ACE before 'ack log'; TLC (Trace_C09) "
             "compares each observation with Names.tla. exhaustive=true in the thorough tier.",
             "7 (C09)"),
+    "C03": ("model_checking",
+            "TLA+ spec (AceText reader, AceSem packet semantics and shadow relations) model-checked by TLC over all "
+            "pairs x all packets of a reduced universe; TLC-printed pairs replayed on live Ace objects; answers "
+            "validated by TLC at full size from the input tokens",
+            "TLC proves for every ordered pair of a 298-entry universe (both sides; contiguous and non-contiguous "
+            "wildcards, groups with 0..2 members, every port operator incl. empty denotations, flag sets, two actions, "
+            "four protocols) against every packet that the symbolic shadow relation equals packet-set containment and "
+            "that the documented relation is sound and monotone in the skip options; the related / nearly related pairs "
+            "are concretised on both platforms and asked with all skip subsets, with in-place edits of group members "
+            "between repeated queries, plus random full-size near-containment pairs; TLC (Trace_Shadow) parses both "
+            "entries from the input tokens and judges soundness, monotonicity and skip-order independence.",
+            "7 (C03)"),
 }
 
 NOT_YET = {
